@@ -15,9 +15,9 @@ const hooksOn = false
 
 type verifChannel struct {
 	IsOpen, HasRequestID, RequesterCancelled, XferStarted, StoreRegistered bool
-	RequestID                                                             graphsync.RequestID
-	PendingExtensions                                                     int
-	MaxLinks                                                              uint64
+	RequestID                                                              graphsync.RequestID
+	PendingExtensions                                                      int
+	MaxLinks                                                               uint64
 }
 type tsnap struct {
 	tracked []datatransfer.ChannelID
